@@ -375,3 +375,28 @@ func H13d() {
 	vAssert(len(files) >= 1, "C13.chain.first-file-returned")
 	vReached("end")
 }
+
+// H13e: the first data record of a file. The mandatory first definition is
+// written for local type a; the data record that follows names local type b
+// (both arbitrary). Only b == a has a definition.
+func H13e() {
+	a, b := vByte()&0x0F, vByte()&0x0F
+	var body bytes.Buffer
+	body.Write([]byte{0x40 | a, 0, 0, 0, 0, 2, 0, 1, 0x00, 1, 2, 0x84})
+	body.Write([]byte{b, 4, 1, 0})
+	hdr := make([]byte, 14)
+	vHeader14(hdr, uint32(body.Len()))
+	var out bytes.Buffer
+	out.Write(hdr)
+	out.Write(body.Bytes())
+	fc := dyncrc16.Checksum(out.Bytes())
+	out.Write([]byte{byte(fc), byte(fc >> 8)})
+	_, err := Decode(bytes.NewReader(out.Bytes()))
+	_, _, ierr := DecodeHeaderAndFileID(bytes.NewReader(out.Bytes()))
+	if a == b {
+		vAssert(err == nil && ierr == nil, "C13.first.defined-slot-decodes")
+	} else {
+		vAssert(err != nil && ierr != nil, "C13.first.undefined-slot-is-error")
+	}
+	vReached("end")
+}
